@@ -189,6 +189,8 @@ def _int_cast(ev, args, kwargs, fr):
         return T.raise_('TypeError')
     if base is None and T.type_of(x) == 'int':
         return x
+    if base is None and T.is_op(x, 'STR') and T.type_of(x[2]) == 'int':
+        return x[2]            # int(str(n)) == n
     if base is None:
         return T.raw_op('INTCAST', x)
     return T.raw_op('INTCAST', x, base)
@@ -581,6 +583,8 @@ def method_call(ev, recv, name, args, kwargs, fr, node):
             if all(T.type_of(x) in ('str', 'bytes') for x in out):
                 return T.cat(*out) if out else (T.const('') if tb == 'str' else T.const(b''))
         return T.raw_op('JOIN', recv, args[0])
+    if name == 'split' and T.is_op(recv, 'JOIN') and args and args[0] == recv[2] and T.tag(recv[3]) == 'list':
+        return recv[3]         # parts are separator-free by construction of the symbolic input
     if name in ('split', 'rsplit'):
         if T.is_const(recv) and all(T.is_const(a) for a in args):
             return T.lst([T.const(x) for x in getattr(recv[1], name)(*[a[1] for a in args])])
